@@ -12,7 +12,7 @@ from vlib import coq
 PROP = "C03"
 LEVEL = "proof"
 COQ_DIRS = ["C03"]
-COQ_TARGETS = ["Base/Reorder.vo", "C03/Model.vo", "C03/Proofs.vo", "C03/Families.vo"]
+COQ_TARGETS = ["Base/Reorder.vo", "C03/Model.vo", "C03/Proofs.vo", "C03/Families.vo", "C03/Global.vo"]
 PROPERTIES_FILE = "Properties/C03.v"
 ALLOWED_AXIOMS = set()
 RULE = ("circuits of 0-12 commands on 1-3 modes mixing every single-mode family (D, X, Z, S, R, P, V, K, Fourier, loss, thermal loss, MSgate, "
@@ -25,12 +25,15 @@ TRUSTED_BASE = [
     "hand model coq/C03/Model.v of Operation.merge (Gate/Channel/Preparation/Fouriergate) and of optimize_circuit's per-wire loop, tied by exact correspondence",
     "Section hypotheses of merge_sound_from_laws: each gate family is a one-parameter group in p[0] (proved for R, S, D, X, Z, P in C03/Families.v; assumed for K, V as exp(i p0 H)), "
     "channels multiply, a preparation absorbs what precedes it on its mode",
-    "multi-wire optimisation (DAG re-linearisation) is validated per run (wire-by-wire comparison + state comparison), proved only for the per-wire loop",
+    "multi-wire optimisation: C03_optimize_circuit_sound covers every linearisation of the optimised grid; its hypotheses on the implementation's output "
+    "(distinct command objects, each on >= 1 wire, per-wire projections = the model's per-wire results) are what the correspondence checks on every case",
+    "Section hypothesis of the whole-optimiser theorem: commands without a common wire (register modes + measured-parameter modes) commute",
 ]
-ASSUMPTIONS = ["general multi-wire trace-monoid theorem not proved (partial): covered by C04's any-toposort theorems + per-run validation"]
+ASSUMPTIONS = ["commands that share no wire of the grid commute (physics of disjoint subsystems + classical dependencies are wires); K/V one-parameter-group laws assumed"]
 MANIFEST_TEXT = ("Proved: the optimiser's per-wire merging loop terminates and preserves the composition for every command list, given merge soundness; merge soundness "
                  "derived from the one-parameter-group laws, which are proved for the Gaussian single-mode families as 2x2 identities; two Fourier gates are "
-                 "provably not mergeable into one. Multi-wire re-linearisation: validated per run (partial).")
+                 "provably not mergeable into one. C03_optimize_circuit_sound: the whole optimiser (all wires, then any re-linearisation of the optimised grid) preserves the ordered "
+                 "composition for every command list, in any monoid where commands without a common wire commute (unbounded in commands, wires, modes).")
 
 PH = [0.25, 0.5]
 GRID8 = [-4, -3, -2, -1, 1, 2, 3, 4, 0]
@@ -212,7 +215,7 @@ def view_impl(prog_opt):
                 except Exception:
                     pass
         nextra = FAMS.get(name, ("", 0))[1]
-        out.append({"name": name, "p0": p0, "extra": extra[:nextra], "modes": modes, "deps": deps, "dagger": bool(getattr(c.op, "dagger", False))})
+        out.append({"name": name, "p0": p0, "extra": extra[:nextra], "modes": modes, "deps": deps, "dagger": bool(getattr(c.op, "dagger", False)), "ident": id(c)})
     return out
 
 
@@ -357,6 +360,9 @@ def correspondence(ctx):
                 if len(mlist) != len(vlist) or not all(same_cmd(m, v) for m, v in zip(mlist, vlist)):
                     agree, why = False, "wire %d: model %s vs implementation %s" % (w, mlist, [(v["name"], v["p0"], v["modes"], v["dagger"]) for v in vlist])
                     break
+            # remaining hypotheses of C03_optimize_circuit_sound on the implementation's output: distinct command objects, each on >= 1 wire
+            if agree and (len({v["ident"] for v in it["view"]}) != len(it["view"]) or any(not v["deps"] for v in it["view"])):
+                agree, why = False, "optimised circuit repeats a Command object or holds a command on no wire"
             merged = it["n_out"] < it["n_in"]
             ctx.case(it["data"]["circ"], nontrivial=merged, bucket=it["profile"] + ("-merged" if merged else "-unchanged"))
             if it["diff"]:
